@@ -3,7 +3,8 @@ EXTENDS Robust, Json
 \* Case emitter: every finished crafted input (= a complete abstract input with the
 \* outcome and site the specification predicts), read by the Go concretiser.
 Emit == (c.out # "na" /\ sent \in {"none", "queued"}) => PrintT(<<"CASE", ToJson(c)>>)
-KindsAll == {"ipsrv", "ipcli", "kesrv", "csptpsrv", "csptpcli"}
+KindsAll == {"ipsrv", "ipcli", "kesrv", "csptpsrv", "csptpcli", "scsrv", "sccli"}
+KindsSc == {"scsrv", "sccli"}
 KindsNet == {"ipsrv", "ipcli", "kesrv"}
 KindsSrv == {"ipsrv"}
 KindsCli == {"ipcli"}
